@@ -54,7 +54,7 @@ TrPrior == TrMVers \X TrPVers
 AsEntry(e) == [dot |-> e.dot, kind |-> e.kind, content |-> e.f, complete |-> e.parsed]
 AsDir(od) == [nm \in DOMAIN od |-> AsEntry(od[nm])]
 CanonZk(z) == [pl |-> [a \in DOMAIN z.pl |-> [data |-> z.pl[a].data, new |-> z.pl[a].new]],
-               man |-> z.man]
+               man |-> z.man, presence |-> z.presence, plnode |-> z.plnode]
 
 (* the model's prediction agrees with what was observed: same ZooKeeper     *)
 (* state, same names, same dot-ness, and wherever the model says "complete" *)
@@ -66,6 +66,7 @@ CanonZk(z) == [pl |-> [a \in DOMAIN z.pl |-> [data |-> z.pl[a].data, new |-> z.p
 PlData(z) == [a \in DOMAIN z.pl |-> z.pl[a].data]
 ObsEq(pred, post) ==
   /\ PlData(pred.zk) = PlData(post.zk) /\ pred.zk.man = post.zk.man
+  /\ pred.zk.presence = post.zk.presence /\ pred.zk.plnode = post.zk.plnode
   /\ DOMAIN pred.dir = DOMAIN post.dir
   /\ \A nm \in DOMAIN pred.dir :
         /\ pred.dir[nm].dot = post.dir[nm].dot
@@ -114,6 +115,13 @@ Rejoin(s, line) ==
   ELSE s
 
 EnvEvs == {"Place", "Unplace", "SetPD", "SetMan", "DelMan"}
+(* lines that only the live run() loop produces (readiness extension) *)
+LiveEvs == {"LiveStart", "CacheNotify", "ZkExists", "Sleep", "Heartbeat",
+            "PresenceAppears", "PresenceDisappears", "PlacementAppears", "PlacementDisappears"}
+LostRd(s, line) ==
+  CASE line.ev \in {"Restart", "Boot"} -> [Rd0 EXCEPT !.wd = s.rd.wd]
+    [] line.ev = "LiveStart" -> LiveStartDo(s).rd
+    [] OTHER -> s.rd
 
 (* bookkeeping the clauses need, kept even when the step is not explained   *)
 LostAg(s, line) ==
@@ -154,7 +162,35 @@ StepOk(pre, line, post) ==
                /\ pre[src].dot /\ pre[src].parsed
                /\ pre[src].f = post[nm].f
 
-Verdict(s, line, post, ag2, explained) ==
+(* ext.ready.* : the readiness side of run() (DRIFT class, never VIOLATION)  *)
+(*   step       the line is not the step the model of the loop takes here     *)
+(*   rule       at every _cache_notify: `.ready` exists iff its argument says  *)
+(*              so; when the loop goes to sleep: `.ready` exists iff the       *)
+(*              presence node exists and the placement latch is set            *)
+(*   firstSync  `.ready` present (after the start-up notify) => a first sync   *)
+(*              of this process life has returned                              *)
+(*   wd         the watchdog lease exists whenever the loop goes to sleep      *)
+ReadyFail(s, line, post, rd2, explained) ==
+  LET has == ReadyName \in DOMAIN post.dir
+      inlive == s.rd.live \/ rd2.live \/ line.ev \in LiveEvs IN
+  IF ~inlive THEN {}
+  ELSE F("ext.ready.step", explained)
+       \cup (IF line.ev = "CacheNotify" THEN F("ext.ready.rule", has = line.args[1]) ELSE {})
+       \cup (IF line.ev = "Sleep"
+             THEN F("ext.ready.rule", has = (post.zk.presence /\ rd2.plRdy))
+                  \cup F("ext.ready.wd", post.wd)
+             ELSE {})
+       \cup (IF rd2.live /\ rd2.pc # "pw" /\ line.ev # "LiveStart"
+             THEN F("ext.ready.firstSync", has => rd2.sync1) ELSE {})
+
+ReadyEx(s, line, post, rd2) ==
+  E("ext.ready", line.ev = "Sleep")
+  \cup E("ext.ready.frozen", line.ev = "Sleep" /\ rd2.plRdy /\ ~rd2.watch)
+  \cup E("ext.ready.reappear", line.ev = "PlacementAppears" /\ rd2.live)
+  \cup E("ext.ready.presenceFlip", line.ev = "CacheNotify" /\ s.rd.cb = "pres")
+  \cup E("ext.ready.lateWatch", line.ev = "ZkExists" /\ s.rd.sync1 = FALSE /\ s.n.hb > 0 /\ line.args[1])
+
+Verdict(s, line, post, ag2, rd2, explained) ==
   LET od == AsDir(post.dir)
       zk == CanonZk(post.zk)
       end == line.ev = "SyncEnd"
@@ -165,11 +201,13 @@ Verdict(s, line, post, ag2, explained) ==
         \cup (IF calm THEN F("C12.present", Present(od, zk, ag2.expected)) ELSE {})
         \cup (IF calm THEN F("C12.content", Content(od, zk, ag2.written)) ELSE {})
         \cup (IF calm /\ ag2.start THEN F("C12.refresh", Refresh(od, zk, ag2.stale0)) ELSE {})
-        \cup F("drift.step", explained),
+        \cup (IF s.rd.live \/ rd2.live \/ line.ev \in LiveEvs THEN {} ELSE F("drift.step", explained))
+        \cup ReadyFail(s, line, post, rd2, explained),
       ex |->
         E("C12", \/ line.ev = "Rename" /\ "exc" \notin DOMAIN line
                  \/ line.ev = "Unlink" /\ line.args[1] \in DOMAIN s.obs /\ ~s.obs[line.args[1]].dot
                  \/ line.ev \in {"Crash", "SyncExc"})
+        \cup ReadyEx(s, line, post, rd2)
         \cup E("sync", calm /\ ag2.expected # {})
         \cup E("written", calm /\ ag2.written # {})
         \cup E("conc", end /\ ag2.disturbed)
@@ -190,7 +228,7 @@ TInit == /\ t \in DOMAIN Traces
          /\ i = 1
          /\ st = [zk |-> CanonZk(L1.post.zk), dir |-> AsDir(L1.post.dir),
                  ag |-> [Ag0 EXCEPT !.pc = L1.ag.pc, !.first = L1.ag.first],
-                 n |-> St0.n, okstep |-> TRUE, obs |-> L1.post.dir]
+                 rd |-> Rd0, n |-> St0.n, okstep |-> TRUE, obs |-> L1.post.dir]
 
 TNext == /\ i < Len(Traces[t].lines)
          /\ i' = i + 1
@@ -207,9 +245,12 @@ TNext == /\ i < Len(Traces[t].lines)
                        THEN [pred.ag EXCEPT !.disturbed =
                                @ \/ (s.ag.pc = "lost" /\ line.ev \in EnvEvs)]
                        ELSE LostAg(s, line)
-                v == Verdict(s, line, post, ag2, explained)
+                rd2 == IF explained THEN pred.rd ELSE LostRd(s, line)
+                v == Verdict(s, line, post, ag2, rd2, explained)
             IN /\ st' = [zk |-> CanonZk(post.zk), dir |-> Adopt(pred, explained, post),
-                         ag |-> ag2, n |-> St0.n, okstep |-> TRUE, obs |-> post.dir]
+                         ag |-> ag2, rd |-> rd2,
+                         n |-> IF explained THEN pred.n ELSE s.n,
+                         okstep |-> TRUE, obs |-> post.dir]
                /\ PrintT(ToJson([tid |-> Traces[t].tid, i |-> i, fail |-> v.fail, ex |-> v.ex]))
 
 TraceSpec == TInit /\ [][TNext]_<<t, i, st>>
